@@ -2,8 +2,9 @@
    source answers from: every file found is entered in the file table (one row per file: pushed, never
    keyed by the id alone) and in its directory's listing; every directory gets a listing and is entered
    in its parent's; ids are the stems joined by dots; a file without extension has the empty one; the
-   file table is ordered by (id, extension) and each listing is sorted (what the binary searches of
-   src/source/embedded.rs rely on).  The bodies are compared as printed. *)
+   file table is ordered by (id, extension) and each listing is sorted (reproducible builds;
+   src/source/embedded.rs collects both tables into hash maps).  Ref/Embed.v is the model of these
+   bodies; Proofs/Embed.v proves it an instance of the archive index.  The bodies are compared as printed. *)
 From Coq Require Import List String.
 From AM Require Import Rust.Ast Gen.Embed.
 Import ListNotations.
